@@ -179,6 +179,136 @@ Theorem equality_is_order_independent exact delta a e :
   dfree a = true -> dfree e = true -> equality_test exact delta a e = equality_test exact delta e a.
 Proof. intros Ha He. unfold equality_test. now apply eqt_sym. Qed.
 
+(* ------------------------------------------------------------------ the tolerance *)
+(* two floats (or a float and an int / bool) are equal exactly when they differ by less than delta *)
+Theorem float_tolerance_spec exact delta x y :
+  sc_eq exact delta (SFloat x) (SFloat y) = negb (Qle_bool delta (Qabs (y - x))).
+Proof. reflexivity. Qed.
+
+Lemma sc_eq_mono exact d d' a e : d <= d' -> sc_eq exact d a e = true -> sc_eq exact d' a e = true.
+Proof.
+  intros Hd. unfold sc_eq. destruct ((is_floaty e && is_real a) || (is_floaty a && is_real e)); [|auto].
+  destruct (qof a) as [x|], (qof e) as [y|]; auto.
+  intros H. apply negb_true_iff in H. apply negb_true_iff.
+  destruct (Qle_bool d' (Qabs (y - x))) eqn:E; [|reflexivity].
+  apply Qle_bool_iff in E. assert (H2 : d <= Qabs (y - x)) by (eapply Qle_trans; eassumption).
+  apply Qle_bool_iff in H2. congruence.
+Qed.
+
+Lemma existsb_mono {A} (f g : A -> bool) l : (forall x, f x = true -> g x = true) -> existsb f l = true -> existsb g l = true.
+Proof.
+  intros H. induction l as [|x l IH]; cbn; [auto|]. intros E. apply orb_prop in E. apply orb_true_iff.
+  destruct E as [E|E]; [left; now apply H|right; now apply IH].
+Qed.
+Lemma forallb_mono {A} (f g : A -> bool) l : (forall x, f x = true -> g x = true) -> forallb f l = true -> forallb g l = true.
+Proof.
+  intros H. induction l as [|x l IH]; cbn; [auto|]. intros E. apply andb_prop in E. destruct E as [E1 E2].
+  apply andb_true_iff. split; [now apply H|now apply IH].
+Qed.
+
+Lemma sets_eq_mono (R R' : scalar -> scalar -> bool) x y :
+  (forall a b, R a b = true -> R' a b = true) -> sets_eq R x y = true -> sets_eq R' x y = true.
+Proof.
+  intros H. unfold sets_eq, contains. intros E. apply andb_prop in E. destruct E as [E E3]. apply andb_prop in E. destruct E as [E1 E2].
+  rewrite E1. cbn [andb]. apply andb_true_iff. split.
+  - eapply forallb_mono; [|exact E2]. intros a. apply existsb_mono. intros el. apply H.
+  - eapply forallb_mono; [|exact E3]. intros a. apply existsb_mono. intros el. apply H.
+Qed.
+
+(* a larger tolerance never rejects what a smaller one accepts *)
+Theorem eqt_mono ex d d' : d <= d' -> forall a, dfree a = true -> forall f e, eqt f ex d a e = true -> eqt f ex d' a e = true.
+Proof.
+  intros Hd a. induction a as [s|l IH|l IH|l|l|l _] using val_ind'; intros Ha f e.
+  - destruct e; cbn; try discriminate. unfold sc_eq'. destruct f; apply sc_eq_mono; exact Hd.
+  - destruct e as [s|l'|l'|l'|l'|l']; try (cbn; discriminate).
+    rewrite !eqt_list. intros E. apply orb_prop in E. apply orb_true_iff. destruct E as [E|E]; [now left|right].
+    rewrite dfree_list in Ha. revert l' E. induction IH as [|x l Hx _ IHl]; intros [|y l']; cbn; auto.
+    cbn in Ha. apply andb_prop in Ha. destruct Ha as [Ha1 Ha2]. intros E. apply andb_prop in E. destruct E as [E1 E2].
+    apply andb_true_iff. split; [now apply Hx|now apply IHl].
+  - destruct e as [s|l'|l'|l'|l'|l']; try (cbn; discriminate).
+    rewrite !eqt_tuple. intros E. apply orb_prop in E. apply orb_true_iff. destruct E as [E|E]; [now left|right].
+    rewrite dfree_tuple in Ha. revert l' E. induction IH as [|x l Hx _ IHl]; intros [|y l']; cbn; auto.
+    cbn in Ha. apply andb_prop in Ha. destruct Ha as [Ha1 Ha2]. intros E. apply andb_prop in E. destruct E as [E1 E2].
+    apply andb_true_iff. split; [now apply Hx|now apply IHl].
+  - destruct e as [s|l'|l'|l'|l'|l']; cbn [eqt]; try discriminate; [|auto].
+    intros E. apply orb_prop in E. apply orb_true_iff. destruct E as [E|E]; [now left|right].
+    unfold sets_eq' in *. destruct f; (eapply sets_eq_mono; [|exact E]); intros a b; apply sc_eq_mono; exact Hd.
+  - destruct e as [s|l'|l'|l'|l'|l']; cbn [eqt]; try discriminate; [auto|].
+    intros E. apply orb_prop in E. apply orb_true_iff. destruct E as [E|E]; [now left|right].
+    unfold sets_eq' in *. destruct f; (eapply sets_eq_mono; [|exact E]); intros a b; apply sc_eq_mono; exact Hd.
+  - discriminate.
+Qed.
+
+Theorem equality_monotone_in_the_tolerance exact d d' a e :
+  d <= d' -> dfree a = true -> equality_test exact d a e = true -> equality_test exact d' a e = true.
+Proof. intros Hd Ha. unfold equality_test. now apply eqt_mono. Qed.
+
+(* ------------------------------------------------------------------ a value equals itself (NaN apart, as in Python) *)
+Definition sc_nan_free (s : scalar) : bool := match s with SNaN => false | _ => true end.
+Fixpoint nan_free (v : val) : bool :=
+  match v with
+  | Sc s => sc_nan_free s
+  | VSet l | VFrozen l => forallb sc_nan_free l
+  | VList l | VTuple l => (fix all (l : list val) : bool := match l with [] => true | x :: r => nan_free x && all r end) l
+  | VDict _ => false
+  end.
+Lemma nan_free_list l : nan_free (VList l) = forallb nan_free l.
+Proof. cbn [nan_free]. induction l as [|x l IH]; cbn; [reflexivity|now rewrite IH]. Qed.
+Lemma nan_free_tuple l : nan_free (VTuple l) = forallb nan_free l.
+Proof. cbn [nan_free]. induction l as [|x l IH]; cbn; [reflexivity|now rewrite IH]. Qed.
+
+Lemma Qeq_bool_refl x : Qeq_bool x x = true.
+Proof. apply Qeq_bool_iff. reflexivity. Qed.
+
+Lemma speq_refl s : sc_nan_free s = true -> speq s s = true.
+Proof. destruct s; cbn; intros H; try discriminate; try apply Qeq_bool_refl; try apply Nat.eqb_refl; reflexivity. Qed.
+
+Lemma sc_eq_refl exact delta s : 0 < delta -> sc_nan_free s = true -> sc_eq exact delta s s = true.
+Proof.
+  intros Hd Hs. unfold sc_eq. destruct ((is_floaty s && is_real s) || (is_floaty s && is_real s)) eqn:C.
+  - destruct s; try (cbn in C; discriminate); try (cbn in Hs; discriminate). cbn [qof].
+    apply negb_true_iff. destruct (Qle_bool delta (Qabs (q - q))) eqn:E; [|reflexivity].
+    apply Qle_bool_iff in E. assert (Z : Qabs (q - q) == 0) by (rewrite <- Qabs_wd with (x := 0); [reflexivity|ring]).
+    rewrite Z in E. exfalso. apply (Qlt_not_le _ _ Hd E).
+  - destruct s; try (cbn in C; discriminate); try (cbn in Hs; discriminate); cbn [speq qof]; try apply Qeq_bool_refl; try reflexivity.
+    destruct exact; apply Nat.eqb_refl.
+Qed.
+
+Lemma sets_eq_refl R x : (forall a, In a x -> R a a = true) -> sets_eq R x x = true.
+Proof.
+  intros H. unfold sets_eq, contains. rewrite Nat.eqb_refl. cbn [andb].
+  assert (A : forallb (fun a => existsb (fun el => R el a) x) x = true).
+  { apply forallb_forall. intros a Ha. apply existsb_exists. exists a. split; [exact Ha|now apply H]. }
+  now rewrite A.
+Qed.
+
+Theorem py_eq_refl a : dfree a = true -> nan_free a = true -> py_eq a a = true.
+Proof.
+  induction a as [s|l IH|l IH|l|l|l _] using val_ind'; intros Hd Hn.
+  - cbn. now apply speq_refl.
+  - rewrite py_eq_list. rewrite dfree_list in Hd. rewrite nan_free_list in Hn.
+    induction IH as [|x l Hx _ IHl]; cbn; [reflexivity|]. cbn in Hd, Hn. apply andb_prop in Hd, Hn.
+    destruct Hd as [Hd1 Hd2], Hn as [Hn1 Hn2]. now rewrite Hx, IHl.
+  - rewrite py_eq_tuple. rewrite dfree_tuple in Hd. rewrite nan_free_tuple in Hn.
+    induction IH as [|x l Hx _ IHl]; cbn; [reflexivity|]. cbn in Hd, Hn. apply andb_prop in Hd, Hn.
+    destruct Hd as [Hd1 Hd2], Hn as [Hn1 Hn2]. now rewrite Hx, IHl.
+  - cbn. apply sets_eq_refl. intros a Ha. apply speq_refl. cbn in Hn. rewrite forallb_forall in Hn. now apply Hn.
+  - cbn. apply sets_eq_refl. intros a Ha. apply speq_refl. cbn in Hn. rewrite forallb_forall in Hn. now apply Hn.
+  - discriminate.
+Qed.
+
+Theorem equality_reflexive exact delta a :
+  0 < delta -> dfree a = true -> nan_free a = true -> equality_test exact delta a a = true.
+Proof.
+  intros Hdelta Hd Hn. unfold equality_test. destruct a as [s|l|l|l|l|l].
+  - cbn. unfold sc_eq'. now apply sc_eq_refl.
+  - rewrite eqt_list. now rewrite py_eq_refl.
+  - rewrite eqt_tuple. now rewrite py_eq_refl.
+  - cbn [eqt]. now rewrite py_eq_refl.
+  - cbn [eqt]. now rewrite py_eq_refl.
+  - discriminate.
+Qed.
+
 (* non-vacuity: nested values that are equal only within the tolerance, in either order; and the former counterexample *)
 Example ex_order :
   let a := VList [VSet [SFloat 1; SFloat 5]; VTuple [Sc (SInt 3); Sc (SStr 0 0)]] in
